@@ -52,10 +52,12 @@ inline Matrix* make_fmt(const Trip& t, int fmt) {
 inline void dump_mat(Case& c, Matrix* A, bool exact = true)
 {
     int fmt = A->format() == COO || A->format() == BCOO ? 0 : (A->format() == CSR || A->format() == BSR ? 1 : 2);
-    c.i(fmt).i(A->n_rows).i(A->n_cols).i(A->b_rows).i(A->b_cols).i(A->nnz).i(A->sorted ? 1 : 0).i(A->diag_first ? 1 : 0);
+    bool blockcls = A->format() == BCOO || A->format() == BSR || A->format() == BSC;     // block classes announce themselves (+10): 1x1 blocks are still blocks
+    c.i(fmt + (blockcls ? 10 : 0)).i(A->n_rows).i(A->n_cols).i(A->b_rows).i(A->b_cols).i(A->nnz).i(A->sorted ? 1 : 0).i(A->diag_first ? 1 : 0);
     c.vec(A->idx1); c.vec(A->idx2);
     int bs = A->b_rows * A->b_cols;
-    if (bs == 1) {
+    bool blockfmt = A->format() == BCOO || A->format() == BSR || A->format() == BSC;     // 1x1 blocks still live in block_vals
+    if (!blockfmt) {
         std::vector<double> v(A->vals.begin(), A->vals.begin() + std::min((size_t)A->nnz, A->vals.size()));
         if (exact) c.divec(v); else c.dvec(v);
     } else {
